@@ -115,7 +115,7 @@ inductive Res
   | noTemplate
   /-- `adjust_uri` returned the adjusted URI of key `k` -/
   | adjusted (k : Nat)
-  /-- `adjust_uri` raised `KeyError` (no step of the current code delivers it; it was F-C16-2) -/
+  /-- `adjust_uri` raised `KeyError` (no step of the current code delivers it – `uri_cache_reads_succeed`) -/
   | keyError
 deriving DecidableEq, Repr
 
